@@ -1,10 +1,10 @@
 SPECIFICATION Spec
 CONSTANTS
-  Mode = "conc"
+  Mode = "gz"
   MaxLen = 0
   SeqLen = 0
-  ConcLen = 2
-  GzLen = 0
+  ConcLen = 0
+  GzLen = 2
   Symbols = {1, 2}
   Mutant = "none"
 INVARIANTS TypeOK OracleSane LinesExact LinesPrefix CarryIsTail OKOnlyAfterAllLines NoOKOnError SidExclusive NoMixing NoForeignBytes BufOwned PendingStable PoolHoldsEachObjectOnce ReaderIsMine GoodGets200 Balanced
